@@ -83,6 +83,96 @@ def _split_parallel(fn, pinned):
     return n_
 
 
+def _forward_list_pack(fn):
+    """`L = []; ..; L.append(A); ..; L.append(B); ..; x, y = L` in one block, L mentioned nowhere else, is `L__0 = A; L__1 = B; x, y = L__0, L__1`
+    (a list that only carries k values from where they are made to where they are unpacked)."""
+    n_ = 0
+    for par in list(ast.walk(fn)):
+        for fld in ("body", "orelse", "finalbody"):
+            b = getattr(par, fld, None)
+            if not isinstance(b, list):
+                continue
+            for i, st in enumerate(list(b)):
+                if not (isinstance(st, ast.Assign) and len(st.targets) == 1 and isinstance(st.targets[0], ast.Name) and isinstance(st.value, ast.List) and not st.value.elts):
+                    continue
+                L = st.targets[0].id
+                occ = [x for x in ast.walk(fn) if isinstance(x, ast.Name) and x.id == L and x is not st.targets[0]]
+                apps, fin = [], None
+                ok = True
+                for x in occ:
+                    p1 = getattr(x, "_parent", None)
+                    p2 = getattr(p1, "_parent", None)
+                    p3 = getattr(p2, "_parent", None)
+                    if isinstance(p1, ast.Attribute) and p1.attr == "append" and isinstance(p2, ast.Call) and p2.func is p1 and len(p2.args) == 1 and not p2.keywords \
+                            and isinstance(p3, ast.Expr) and p3 in b:
+                        apps.append(p3)
+                    elif isinstance(p1, ast.Assign) and p1.value is x and len(p1.targets) == 1 and isinstance(p1.targets[0], (ast.Tuple, ast.List)) \
+                            and all(isinstance(e, ast.Name) for e in p1.targets[0].elts) and p1 in b and fin is None:
+                        fin = p1
+                    else:
+                        ok = False
+                if not ok or fin is None or not apps or len(apps) != len(fin.targets[0].elts):
+                    continue
+                idx = [b.index(a) for a in apps]
+                if idx != sorted(idx) or b.index(fin) < max(idx) or min(idx) < i:
+                    continue
+                names = [f"{L}__{k}" for k in range(len(apps))]
+                for k, a in enumerate(apps):
+                    new = ast.Assign(targets=[ast.copy_location(ast.Name(id=names[k], ctx=ast.Store()), a)], value=a.value.args[0], type_comment=None)
+                    ast.copy_location(new, a)
+                    new.end_lineno, new.end_col_offset = getattr(a, "end_lineno", a.lineno), getattr(a, "end_col_offset", a.col_offset + 1)
+                    b[b.index(a)] = new
+                fin.value = ast.copy_location(ast.Tuple(elts=[ast.copy_location(ast.Name(id=nm, ctx=ast.Load()), fin.value) for nm in names], ctx=ast.Load()), fin.value)
+                b.remove(st)
+                n_ += 1
+                for n in ast.walk(fn):
+                    for c in ast.iter_child_nodes(n):
+                        c._parent = n
+    return n_
+
+
+def _coalesce_copies(fn):
+    """`x = t` where t is a name made by a normal form (`..__uK`), never read after this copy, and x is not mentioned between t's first store and the
+    copy: t IS x - the copy is dropped and t renamed (the unrolled `pad__u0 = ..; pad__u0 = f(pad__u0); left = pad__u0` is `left = ..; left = f(left)`)."""
+    import re
+    n_ = 0
+    for _ in range(20):
+        done = False
+        for par in list(ast.walk(fn)):
+            for fld in ("body", "orelse", "finalbody"):
+                b = getattr(par, fld, None)
+                if not isinstance(b, list):
+                    continue
+                for st in list(b):
+                    if not (isinstance(st, ast.Assign) and len(st.targets) == 1 and isinstance(st.targets[0], ast.Name) and isinstance(st.value, ast.Name)):
+                        continue
+                    x, t = st.targets[0].id, st.value.id
+                    if not re.search(r"__u\d+$", t) or x == t:
+                        continue
+                    tocc = [n for n in ast.walk(fn) if isinstance(n, ast.Name) and n.id == t and n is not st.value]
+                    if not tocc or any((n.lineno, n.col_offset) > (st.lineno, st.col_offset) for n in tocc):
+                        continue
+                    first = min((n.lineno, n.col_offset) for n in tocc)
+                    if not all(any(n is y for s_ in b for y in ast.walk(s_)) for n in tocc):
+                        continue          # all in this block
+                    xocc = [n for n in ast.walk(fn) if isinstance(n, ast.Name) and n.id == x and n is not st.targets[0]]
+                    if any(first <= (n.lineno, n.col_offset) <= (st.lineno, st.col_offset) for n in xocc):
+                        continue
+                    for n in tocc:
+                        n.id = x
+                    b.remove(st)
+                    n_ += 1
+                    done = True
+                    break
+                if done:
+                    break
+            if done:
+                break
+        if not done:
+            break
+    return n_
+
+
 def _unroll_literal_loops(fn, pinned):
     """`for a, b in ((x1, y1), (x2, y2)): BODY` with NEW loop variables over a literal display of at most 6 rows is stored unrolled:
     `a__u0, b__u0 = x1, y1; BODY[a__u0, b__u0]; a__u1, b__u1 = x2, y2; BODY[..]` - "two parallel blocks merged into one loop over a table"
@@ -121,9 +211,25 @@ def _unroll_literal_loops(fn, pinned):
                          and (x.lineno, x.col_offset) > (getattr(lp, "end_lineno", lp.lineno), getattr(lp, "end_col_offset", 0))]
                 if after:
                     continue
+                # locals that live only inside the loop body (every occurrence in the function is inside the loop, first occurrence in the body a
+                # store) are per-iteration temporaries: they get their own name in each copy as well
+                lo_, hi_ = (lp.lineno, lp.col_offset), (getattr(lp, "end_lineno", lp.lineno), getattr(lp, "end_col_offset", 10 ** 6))
+                inner_ids = {id(x) for st_ in lp.body for x in ast.walk(st_)}
+                locals_ = []
+                for nm_ in sorted({x.id for st_ in lp.body for x in ast.walk(st_) if isinstance(x, ast.Name) and isinstance(x.ctx, ast.Store)} - set(tnames)):
+                    occ = [x for x in ast.walk(fn) if isinstance(x, ast.Name) and x.id == nm_]
+                    if all(id(x) in inner_ids for x in occ) and not any(isinstance(a_, ast.arg) and a_.arg == nm_ for a_ in ast.walk(fn)):
+                        first = min((x for x in occ), key=lambda x: (x.lineno, x.col_offset))
+                        stmt_ = first
+                        while stmt_ is not None and not isinstance(stmt_, ast.stmt):
+                            stmt_ = getattr(stmt_, "_parent", None)
+                        # defined before it is read in every iteration: the first statement mentioning it assigns it and does not read it
+                        if isinstance(stmt_, ast.Assign) and any(isinstance(t_, ast.Name) and t_.id == nm_ for t_ in stmt_.targets) \
+                                and not any(isinstance(x, ast.Name) and x.id == nm_ for x in ast.walk(stmt_.value)) and stmt_ in lp.body:
+                            locals_.append(nm_)
                 out = []
                 for k, row in enumerate(lp.iter.elts):
-                    ren = {t: f"{t}__u{k}" for t in tnames}
+                    ren = {t: f"{t}__u{k}" for t in tnames + locals_}
 
                     class R(ast.NodeTransformer):
                         def visit_Name(self, n):
@@ -201,7 +307,14 @@ def fold_function(fi):
     if fi.qualname not in PIN["locals"]:
         return 0
     # the shape normal forms are applied to every local, pinned or not: a normal form must not depend on what a variable is called
+    for n in ast.walk(fn):
+        for c in ast.iter_child_nodes(n):
+            c._parent = n
     pre = _unroll_literal_loops(fn, set())
+    for n in ast.walk(fn):
+        for c in ast.iter_child_nodes(n):
+            c._parent = n
+    pre += _forward_list_pack(fn)
     pre += _split_parallel(fn, set()) + _unpack_indexed(fn, set())
     # renamed locals look like new ones: when the function has lost as many pinned locals as it has gained new ones, the new names are
     # (most likely) the old locals under another name - the rules already follow renamed locals by shape, so nothing is folded there
@@ -361,7 +474,7 @@ def fold_function(fi):
         total += done
         if not done:
             break
-    return total
+    return total + _coalesce_copies(fn)
 
 
 def fold_new_temporaries(repo):
